@@ -125,7 +125,9 @@ def one_run(totals, spawn, prefix, fail=()):
     def thunk(tid):
         def f():
             for k in range(totals[tid]):
-                conn._send(1, tid * 100 + k, ())
+                # every second message of a thread is a REPLY (what a serving thread sends after a request of its own, e.g. a callback
+                # followed by the handler's result): the queue discipline must not depend on the kind of a message (seed C12-r10m2)
+                conn._send(1 if k % 2 == 0 else 2, tid * 100 + k, ())
         return f
     sched = Sched([code], label_of, step_timeout=3.0)
     record = []
